@@ -35,6 +35,18 @@ CHECKS = {
    "the full systematic matrix (30 element kinds x 11 type shapes x 6 contexts = 1920 single-cell schemas) under the default options plus pairwise-covering option rows, seeded random schemas, the construct family and a naming-hazard family go through the real ReadFile+Generate in child processes; every accepted output is compiled by the real Go compiler against /repo's bebop and iohelp packages (Record assertions included)",
    "held on the (schema, option set) pairs explored; single shapes x contexts are complete, combinations of shapes are sampled; 13 naming hazards are recorded known findings",
    "runtime monitoring: compile-as-oracle over a systematic schema matrix x generator options"),
+ "C01": ("exploration",
+   "the codec corpus (every cell of the 30 x 11 x 6 matrix as a record with sentinel fields, plus seeded random schemas, generated with GenerateUnsafeMethods by the real generator and compiled) is driven in child processes: 24/200 boundary-driven values per record type x 3 encoders x 6 decoder entry points; the decoded value is compared with the encoded one by the harness's own normalising comparer",
+   "held on the (type, value, encoder, decoder) tuples executed; a defect made symmetrically by encoder and decoder is out of reach here (see C03); values avoid the Unix epoch instant, NaN and -0 map keys",
+   "runtime monitoring: round-trip oracle over a systematic type-shape matrix with a reflection bridge into generated code"),
+ "C02": ("exploration",
+   "same corpus and values as C01; MarshalBebop, EncodeBebop (metering writer) and MarshalBebopTo into Size()+9-byte buffers with four different pre-fills; byte agreement (after reference decoding when a map has >= 2 entries), exact Size(), returned n, untouched pad bytes (canary) and independence from the pre-fill are checked per value",
+   "held on the values executed; the canary detects writes in the 9 bytes after Size() (a wilder overrun is the -asan builds' job in C20/C06)",
+   "runtime monitoring: differential oracle between the three encoders + dirty-buffer canary monitor"),
+ "C03": ("exploration",
+   "same corpus and values; every encoder's output is compared byte for byte with an independent reference encoder written from the wire-format statement (encoding/binary), and every decoder is fed the reference encoding under every permutation of map entries (all n! for n <= 4) and must return the value",
+   "held on the values executed; the reference codec encodes the repository's date convention (ticks since the Unix epoch), not .NET ticks",
+   "runtime monitoring: differential oracle against an independent reference codec with per-byte role map"),
 }
 DESIGN = {i: "DESIGN.md section 4, %s" % i for i in CHECKS}
 
